@@ -171,6 +171,17 @@ def arith(rep, mf, F=None):
                    name, op, " through __ADD, because the checker admits str + str on tuple elements and raw `+` does "
                    "arithmetic on (or fails for) strings" if name == "__add" and str_add else "", [(o, l, r) for o, l, r, _, _ in binops]),
                "preamble.lua:%s" % f["line"])
+        # .. every component, whatever its value: an `if` inside the loop (a divisor of 0 answered with 0, say) gives some components
+        # another result than the operator gives two numbers
+        special = [n_ for lp, _ in loops for n_ in luaparse.walk(lp["body"]) if n_.get("k") in ("If", "Break", "Return", "Goto")]
+        n_assign = sum(1 for lp, _ in loops for n_ in luaparse.walk(lp["body"]) if n_.get("k") in ("Assign", "Local"))
+        rep.ob("ARITH", "tuple|%s|no-component-is-special" % name, not special and n_assign == len(binops),
+               "the loop body of __TUPLE_META.%s is the one assignment: no component is treated differently for its value" % name
+               if not special and n_assign == len(binops) else
+               "the loop of __TUPLE_META.%s does not treat all components alike (%s): for some values a component of the result is not "
+               "`a[x] %s b[x]` - what the same operator gives for the two numbers alone" %
+               (name, "`%s` inside the loop" % special[0]["k"].lower() if special else "%d assignments, %d of them the operator" % (n_assign, len(binops)), op),
+               "preamble.lua:%s" % (special[0].get("line") if special and special[0].get("line") else f["line"]))
         rets = [r for r in luaparse.walk(f["body"]) if r.get("k") == "Return"]
         rep.ob("ARITH", "tuple|%s|result-is-tuple" % name, bool(rets) and all(r["es"] and luaparse.show(r["es"][0]).startswith("__TUPLE(") for r in rets),
                "__TUPLE_META.%s returns a tuple in every branch" % name, "preamble.lua:%s" % f["line"])
